@@ -144,6 +144,10 @@ def runtime_traces(ctx: Ctx, rng, tid0: int, n: int):
         tf.write_text("\n".join(repr(t) for t in temps) + "\n")
         pr = subprocess.run([str(exe), str(tf)], capture_output=True, text=True, timeout=120)
         if pr.returncode != 0:
+            if "runtime error: index" in pr.stderr:
+                ctx.violation("C06|OutOfBounds|runtime", "the generated rates / right-hand side index an array outside its declared size: " + pr.stderr.strip().splitlines()[0][:300],
+                              {"lines": [encoders.native(r) for r in recs]})
+                continue
             raise MachineryError(f"fex driver failed: {pr.stderr[-300:]}")
         from naunet.species import Species
         prod_slot = [macros["IDX_" + Species(r["p"][0]).alias] for r in recs]
